@@ -218,6 +218,87 @@ fn check_float(x: f64, prec: Option<usize>) -> Result<(u64, bool), Violation> {
     Ok((hash_of(&(s.len(), neg, fp.len())), x.abs() >= 1000.0))
 }
 
+/// One formatter call of the history alphabet: label and the call itself.
+fn history_alphabet() -> Vec<(String, Box<dyn Fn() -> String + Send + Sync>)> {
+    let mut v: Vec<(String, Box<dyn Fn() -> String + Send + Sync>)> = Vec::new();
+    for x in [0.0f64, -0.0, 1234.5, -1234.5, 0.5, -0.5, 999.9995, f64::NAN, f64::INFINITY, f64::NEG_INFINITY, 1e15, 5e-324] {
+        v.push((format!("HumanFloatCount({x:e})"), Box::new(move || format!("{}", HumanFloatCount(x)))));
+        v.push((format!("HumanFloatCount({x:e}):.0"), Box::new(move || format!("{:.0}", HumanFloatCount(x)))));
+        v.push((format!("HumanFloatCount({x:e}):.2"), Box::new(move || format!("{:.2}", HumanFloatCount(x)))));
+    }
+    for n in [0u64, 1, 999, 1000, 1023, 1024, 1_000_000, u64::MAX] {
+        v.push((format!("HumanCount({n})"), Box::new(move || format!("{}", HumanCount(n)))));
+        v.push((format!("HumanBytes({n})"), Box::new(move || format!("{}", HumanBytes(n)))));
+        v.push((format!("BinaryBytes({n})"), Box::new(move || format!("{}", BinaryBytes(n)))));
+        v.push((format!("DecimalBytes({n})"), Box::new(move || format!("{}", DecimalBytes(n)))));
+    }
+    for d in [Duration::ZERO, Duration::from_millis(999), Duration::from_secs(1), Duration::from_millis(89_499), Duration::from_millis(89_500), Duration::from_secs(3600), Duration::from_secs(86400), Duration::MAX] {
+        v.push((format!("HumanDuration({d:?})"), Box::new(move || format!("{}", HumanDuration(d)))));
+        v.push((format!("HumanDuration({d:?}):#"), Box::new(move || format!("{:#}", HumanDuration(d)))));
+        v.push((format!("FormattedDuration({d:?})"), Box::new(move || format!("{}", FormattedDuration(d)))));
+    }
+    v
+}
+
+/// The wrappers are pure functions of their argument: the text printed for a value must not depend on
+/// which formatter calls the same thread made before.  Expected texts come from one fresh thread per
+/// call; every sequence of two calls runs on a fresh thread of its own, every sequence of three on
+/// the current thread, and the last call of each sequence must print the fresh text.
+fn history_independence(shard: Shard, stats: &mut Stats) {
+    let alpha = std::sync::Arc::new(history_alphabet());
+    let n = alpha.len();
+    let fresh: Vec<Result<String, String>> = (0..n)
+        .map(|i| {
+            let a = alpha.clone();
+            std::thread::spawn(move || catch(|| (a[i].1)())).join().unwrap_or_else(|_| Err("thread".into()))
+        })
+        .collect();
+    let mut idx = 0u64;
+    let mut judge = |stats: &mut Stats, hist: Vec<usize>, got: Result<String, String>| {
+        let last = *hist.last().unwrap();
+        let labels: Vec<String> = hist.iter().map(|&i| alpha[i].0.clone()).collect();
+        match (&got, &fresh[last]) {
+            (Err(p), _) => stats.violation(viol(&format!("panic: {}", panic_class(p)), labels.join("; "), p.clone())),
+            (Ok(g), Ok(f)) if g != f => stats.violation(viol("history: a formatter prints a different text after other formatter calls on the same thread", labels.join("; "), format!("fresh thread prints {f:?}, after this history {g:?}"))),
+            (Ok(g), _) => stats.state_outcome(hash_of(&("hist", last, g)), hist[0] != last),
+        }
+    };
+    for i in 0..n {
+        for j in 0..n {
+            idx += 1;
+            if !shard.owns(idx) {
+                continue;
+            }
+            stats.evaluations += 1;
+            stats.transitions += 2;
+            let a = alpha.clone();
+            let got = std::thread::spawn(move || {
+                let _ = catch(|| (a[i].1)());
+                catch(|| (a[j].1)())
+            })
+            .join()
+            .unwrap_or_else(|_| Err("thread".into()));
+            judge(stats, vec![i, j], got);
+        }
+    }
+    for i in 0..n {
+        for j in 0..n {
+            idx += 1;
+            if !shard.owns(idx) {
+                continue;
+            }
+            for k in 0..n {
+                stats.evaluations += 1;
+                stats.transitions += 3;
+                let _ = catch(|| (alpha[i].1)());
+                let _ = catch(|| (alpha[j].1)());
+                let got = catch(|| (alpha[k].1)());
+                judge(stats, vec![i, j, k], got);
+            }
+        }
+    }
+}
+
 pub fn run(tier: Tier, shard: Shard, stats: &mut Stats) {
     let mut idx = 0u64;
     let mut own = |stats: &mut Stats| {
@@ -230,7 +311,7 @@ pub fn run(tier: Tier, shard: Shard, stats: &mut Stats) {
         o
     };
     let put = |stats: &mut Stats, r: Result<(u64, bool), Violation>| match r {
-        Ok((h, nt)) => stats.state(h, nt),
+        Ok((h, nt)) => stats.state_outcome(h, nt),
         Err(v) => stats.violation(v),
     };
     for n in u64_cases(tier) {
@@ -329,7 +410,7 @@ pub fn run(tier: Tier, shard: Shard, stats: &mut Stats) {
         match check_human_duration(d, &mut scratch) {
             Ok((h, nt, approx)) => {
                 if mine {
-                    stats.state(h, nt);
+                    stats.state_outcome(h, nt);
                 }
                 if shard.i == 0 {
                     if let Some((pd, pa)) = prev {
@@ -347,6 +428,7 @@ pub fn run(tier: Tier, shard: Shard, stats: &mut Stats) {
             }
         }
     }
+    history_independence(shard, stats);
     stats.sample(json!("HumanCount(1234567) == 1,234,567"));
     stats.sample(json!("HumanDuration(89.5 s +- 2 ms), FormattedDuration(86399 s, 86400 s)"));
 }
@@ -354,7 +436,7 @@ pub fn run(tier: Tier, shard: Shard, stats: &mut Stats) {
 pub fn meta(_tier: Tier) -> Meta {
     Meta {
         level: "exploration",
-        rule: "boundary-exhaustive enumeration: HumanCount and the three byte wrappers on 0..=1e5 (2e6 thorough), every d*10^k+-1, 2^k+-2, unit boundaries +-2, u64::MAX; HumanFloatCount on 95 values x precisions default,0..=25; FormattedDuration on every second of 0..=200000 (2e6) plus boundaries and Duration::MAX; HumanDuration on every millisecond of 0..=200 s (4000 s) plus (n+1/2)*unit+-2 ms for n<=120 and every unit switch, plain and alternate. Oracle: parse-back against exact integer references; distinct = distinct (unit, magnitude class) outputs; non-trivial = value beyond the first grouping/unit boundary".into(),
+        rule: "boundary-exhaustive enumeration: HumanCount and the three byte wrappers on 0..=1e5 (2e6 thorough), every d*10^k+-1, 2^k+-2, unit boundaries +-2, u64::MAX; HumanFloatCount on 95 values x precisions default,0..=25; FormattedDuration on every second of 0..=200000 (2e6) plus boundaries and Duration::MAX; HumanDuration on every millisecond of 0..=200 s (4000 s) plus (n+1/2)*unit+-2 ms for n<=120 and every unit switch, plain and alternate; plus every sequence of two and of three calls over a 92-call alphabet of all seven wrappers (signed zeros, NaN, infinities, unit boundaries), whose last call must print what a fresh thread prints. Oracle: parse-back against exact integer references; distinct = distinct (unit, magnitude class) outputs; non-trivial = value beyond the first grouping/unit boundary".into(),
         assumptions: vec!["HumanFloatCount reference = std's correctly rounded fixed-precision formatting, grouped, trailing zeros trimmed, sign in front".into()],
         bounds: json!({}),
         exhaustive: true,
